@@ -19,7 +19,7 @@ import (
 // filterType draws a type for filter and range tests: 1..maxAttrs attributes
 // over all kinds plus optionally a to-one and a to-many relationship.
 func filterType(t *rapid.T, maxAttrs int, withRels bool) gen.TypeSpec {
-	ts := gen.TypeSpec{Name: "t", IDPos: rapid.IntRange(0, 3).Draw(t, "idpos"), EmbedID: rapid.IntRange(0, 4).Draw(t, "embedid") == 0}
+	ts := gen.TypeSpec{Name: "t", IDPos: rapid.IntRange(0, 3).Draw(t, "idpos"), EmbedID: rapid.IntRange(0, 4).Draw(t, "embedid") == 0, NamedID: rapid.IntRange(0, 5).Draw(t, "namedid") == 0}
 	n := rapid.IntRange(1, maxAttrs).Draw(t, "nattrs")
 
 	for i := 0; i < n; i++ {
@@ -333,6 +333,35 @@ func TestC10Leaf(t *testing.T) {
 			holds[op] = s
 		}
 
+		// A resource nobody has touched yet (no Set, no Get) holds the zero
+		// value of the kind and is filtered like any other.
+		{
+			st := ts
+			st.Struct = false
+			typ := gen.SoftTypeOf(&st)
+			zero := gen.ZeroValue(attr)
+
+			if attr.Nullable {
+				zero = gen.TypedNil(attr.Type)
+			}
+
+			for _, op := range gen.AttrOps {
+				fresh := &jsonapi.SoftResource{Type: &typ}
+				want := oracle.EvalAttrOp(op, zero, cv)
+
+				var got bool
+
+				if p := oracle.Try(func() { got = (&jsonapi.Filter{Field: "a", Op: op, Val: gen.Clone(cv)}).IsAllowed(fresh) }); p != nil {
+					t.Fatalf("C10 violated: IsAllowed on an untouched soft resource %s", p)
+				}
+
+				if got != want {
+					t.Fatalf("C10 violated: kind %s, an untouched soft resource (zero value %s), filter %q %s: %v, want %v",
+						gen.KindName(attr.Type, attr.Nullable), gen.Show(zero), op, gen.Show(cv), got, want)
+				}
+			}
+		}
+
 		// The laws themselves, on the implementation's verdicts.
 		rnil, _ := gen.Deref(rv)
 		cnil, _ := gen.Deref(cv)
@@ -508,7 +537,63 @@ func TestC10Matrix(t *testing.T) {
 	r.Exhaustive("operator x kind x nullable x representative pair classes (equal, less, greater, prefix, nil on either/both sides) + connectives with empty child lists")
 }
 
+// c10SameNamedStructs: two struct types with one Go name (different scopes)
+// and different layouts are different types; the verdict on a wrapped value of
+// either is the verdict on a soft resource holding the same values. (A shape
+// reflect.StructOf cannot produce, hence a declared example.)
+func c10SameNamedStructs(t *testing.T) {
+	first := func() jsonapi.Resource {
+		type doc struct {
+			ID    string `json:"id" api:"docs"`
+			Title string `json:"title" api:"attr"`
+			Pages int    `json:"pages" api:"attr"`
+		}
+
+		return jsonapi.Wrap(&doc{ID: "1", Title: "b", Pages: 3})
+	}
+	second := func() jsonapi.Resource {
+		type doc struct {
+			Pages int    `json:"pages" api:"attr"`
+			ID    string `json:"id" api:"docs"`
+			Owner string `json:"owner" api:"rel,people"`
+			Title string `json:"title" api:"attr"`
+		}
+
+		return jsonapi.Wrap(&doc{ID: "2", Title: "a", Pages: 7, Owner: "p1"})
+	}
+
+	for round := 0; round < 2; round++ {
+		for _, c := range []struct {
+			res   jsonapi.Resource
+			title string
+			pages int
+		}{{first(), "b", 3}, {second(), "a", 7}} {
+			for _, f := range []struct {
+				filter *jsonapi.Filter
+				want   bool
+			}{
+				{&jsonapi.Filter{Field: "title", Op: "=", Val: c.title}, true},
+				{&jsonapi.Filter{Field: "title", Op: "<", Val: "ab"}, c.title < "ab"},
+				{&jsonapi.Filter{Field: "pages", Op: ">", Val: 5}, c.pages > 5},
+				{&jsonapi.Filter{Op: "and", Val: []*jsonapi.Filter{{Field: "pages", Op: "=", Val: c.pages}, {Field: "title", Op: "!=", Val: "zz"}}}, true},
+			} {
+				var got bool
+
+				if p := oracle.Try(func() { got = f.filter.IsAllowed(c.res) }); p != nil {
+					t.Fatalf("C10 violated: IsAllowed on a wrapped %T %s", c.res, p)
+				}
+
+				if got != f.want {
+					t.Fatalf("C10 violated: wrapped struct {title %q pages %d}: filter %+v gives %v, want %v", c.title, c.pages, *f.filter, got, f.want)
+				}
+			}
+		}
+	}
+}
+
 func TestC10Regress(t *testing.T) {
+	t.Run("same-named-structs", c10SameNamedStructs)
+
 	check := func(t *testing.T, attr jsonapi.Attr, rv, cv any, ops ...string) {
 		ts := gen.TypeSpec{Name: "t", Attrs: []jsonapi.Attr{attr}}
 		soft, wrapped := twins(&ts, map[string]any{"id": "1", "a": rv})
